@@ -203,6 +203,14 @@ class C09(Property):
                 _, c, tq = ev
                 if not hist.in_range(tq):
                     continue
+                if (len(hist) + c + tq) % 7 == 0 and pb[c] is None and not any(nd["kind"] == "dfix" for nd in paths[c]):
+                    # a request beyond the newest publication is refused and must not count as this consumer's last request
+                    try:
+                        inputs[c].pull_data(slots.t(hist.newest + 3))
+                        out.viol("future_request_served", f"consumer {c}: request beyond the newest publication served", spec=spec)
+                        return out
+                    except fm.FinamTimeError:
+                        out.count("refused_future_requests")
                 tq_orig, tq = tq, shifted(c, tq)
                 try:
                     got = inputs[c].pull_data(slots.t(tq_orig))
@@ -273,7 +281,7 @@ class C09(Property):
 
     def coverage_gaps(self, counters, tier):
         need = ["publications", "pulls_compared", "bound_checks", "evictions", "invariant_evaluations", "long_histories",
-                "cases_with_delay_adapter", "cases_with_fanout_below_adapter"]
+                "cases_with_delay_adapter", "cases_with_fanout_below_adapter", "refused_future_requests"]
         return [f"{k} never observed" for k in need if not counters.get(k)]
 
 
